@@ -174,9 +174,10 @@ def leaks(fn, prog, noreturn=("libast_fatal_error",)):
             if v is not None:
                 for e in owners(st, v, mention=True):
                     st.discard(("own", e))
+            assert_arm = any(m_.startswith("b:ASSERT") for m_ in n.get("m", []))
             for x in st:
                 t, e = x[0], x[1]
-                if t == "own":
+                if t == "own" and not assert_arm:      # the failing arm of an ASSERT is a cannot-happen path
                     reports.append((alloc_site.get(e), n, fn.vardecls[e]["n"], "not released, returned or stored on this path"))
             return frozenset(x for x in st if x[0] not in ("own", "al"))
         return state
